@@ -175,6 +175,9 @@ def gen_db_case(rng, in_scope: bool = True) -> dict[str, Any]:
                 ops.append(["export", "a"])
                 mark_exported()
                 have_file = True
+        elif in_scope and have_file and rng.chance(0.08):
+            # ---- update_from_hdf on the current database: every file entry is stored again
+            ops.append(["update"])
         elif in_scope and have_file and rng.chance(0.15):
             # ---- restart: a new Database filled from the file; stores since the last export are lost
             ops.append(["reload"])
@@ -191,7 +194,10 @@ def gen_db_case(rng, in_scope: bool = True) -> dict[str, Any]:
             have_file = True
     if via == "direct" and (not have_file or rng.chance(0.5)):
         ops.append(["export", "a"])
-    return {"kind": "db", "node": node, "via": via, "space": rng.chance(0.3), "ops": ops}
+    return {"kind": "db", "node": node, "via": via, "space": rng.chance(0.3), "ops": ops,
+            # the caller reuses ONE array object for all the points (updated in place between stores),
+            # passes HashableNdarray keys, pathlib paths
+            "alias_x": rng.chance(0.5), "hashable": rng.chance(0.3), "pathlib": rng.chance(0.5)}
 
 
 # --------------------------------------------------------------------------- protocol lines
@@ -216,8 +222,8 @@ def db_lines(case) -> list[str]:
     for op in case["ops"]:
         if op[0] == "store":
             lines.append(" ".join(["store", pt_tok(op[1]), *[f"{n}={val_tok(v)}" for n, v in op[2].items()]]))
-        elif op[0] == "reload":
-            lines.append("reload")
+        elif op[0] in ("reload", "update"):
+            lines.append(op[0])
         else:
             lines.append(f"export {op[1]}")
     return lines
@@ -338,9 +344,29 @@ class DbRun:
         self.reloads: list[tuple[int, Any]] = []  # (op index, reloaded database) after each export
         self.reload_errors: list[tuple[int, str]] = []
         self.space_equal: list[tuple[int, bool]] = []
+        self._bufs: dict = {}
 
     def _export(self, mode: str) -> None:
-        self.db.to_hdf(self.path, append=(mode == "a"), hdf_node_path=self.node)
+        path = Path(self.path) if self.case.get("pathlib") else self.path
+        if not self.node and mode == "w" and self.case.get("pathlib"):
+            self.db.to_hdf(path)  # defaults: append=False, root node
+        else:
+            self.db.to_hdf(path, append=(mode == "a"), hdf_node_path=self.node)
+
+    def _key(self, pt):
+        """The array handed to `store`: a fresh array, or ONE buffer per dtype updated in place."""
+        from gemseo.algos.hashable_ndarray import HashableNdarray
+
+        a = build_pt(pt)
+        if self.case.get("alias_x"):
+            buf = self._bufs.get((a.dtype.kind, len(a)))
+            if buf is None:
+                buf = self._bufs[(a.dtype.kind, len(a))] = a.copy()
+            buf[:] = a
+            a = buf
+        if self.case.get("hashable"):
+            return HashableNdarray(a)
+        return a
 
     def _refresh(self, op_index: int) -> None:
         self.file_s = canon_file(self.path, self.node)
@@ -372,7 +398,7 @@ class DbRun:
             try:
                 if op[0] == "store":
                     fused = via != "direct" and i + 1 < len(ops) and ops[i + 1][0] == "export"
-                    self.db.store(build_pt(op[1]), {n: build_val(v) for n, v in op[2].items()})
+                    self.db.store(self._key(op[1]), {n: build_val(v) for n, v in op[2].items()})
                     if fused:
                         # the listener exported inside `store`: the model's intermediate line is skipped
                         self.lines.append("*")
@@ -380,6 +406,8 @@ class DbRun:
                         self._refresh(i)
                 elif op[0] == "reload":
                     self.db = self.Database.from_hdf(self.path, hdf_node_path=self.node, log=False)
+                elif op[0] == "update":
+                    self.db.update_from_hdf(self.path, hdf_node_path=self.node)
                 else:
                     self._export(op[1])
                     self._refresh(i)
@@ -429,6 +457,13 @@ def expected_content(ops, upto: int) -> list[tuple[dict, dict]]:
         if op[0] == "reload":
             order = list(snap_order)
             content = {k: (v[0], dict(v[1])) for k, v in snap.items()}
+            continue
+        if op[0] == "update":
+            for k in snap_order:
+                if k not in content:
+                    content[k] = (snap[k][0], {})
+                    order.append(k)
+                content[k][1].update(snap[k][1])
             continue
         key = (op[1]["int"], tuple(Fraction(t) for t in op[1]["xs"]))
         if key not in content:
@@ -591,6 +626,10 @@ def scope_flags(case) -> list[bool]:
         elif op[0] == "reload":
             flags.append(True)
             stored = {k: dict(v) for k, v in in_file.items()}
+        elif op[0] == "update":
+            flags.append(True)
+            for k, v in in_file.items():
+                stored.setdefault(k, {}).update(v)
         else:
             flags.append(True)
             if op[1] == "w" or not in_file:
@@ -661,6 +700,9 @@ def check_db_cases(res: Result, cases: list[dict[str, Any]], in_scope: bool, twi
         n_exp = sum(1 for o in ops if o[0] == "export")
         if any(o[0] == "reload" for o in ops):
             res.count("db:has-reload")
+        for flag in ("alias_x", "hashable", "pathlib"):
+            if case.get(flag):
+                res.count("db:" + flag)
         res.count(f"db:ops={min(len(ops) // 5 * 5, 25)}+")
         res.count(f"db:via={case['via']}")
         res.count("db:node=" + ("root" if not case["node"] else "nested"))
@@ -739,6 +781,9 @@ def _append_branches(case) -> set:
         if op[0] == "reload":
             stored = {k: {n: v for n, v in stored[k].items() if n in exported[k]} for k in exported}
             out.add("append-after-reload")
+            continue
+        if op[0] == "update":
+            out.add("update-from-file-on-current-database")
             continue
         if op[1] == "a" and have and exported:
             for key, cur in stored.items():
@@ -892,6 +937,19 @@ def ds_observe(case) -> dict[str, Any]:
             obs["csv"] = canon_ds(r1)
             obs["csv_file"] = canon_ds(r2)
             obs["csv_obj"] = r1
+            # documented options: a commented header + `header=`, and a permutation of the fields
+            p3 = os.path.join(d, "ds_h.csv")
+            try:
+                ds.to_csv(p3, header_char="# ")
+                obs["csv_header"] = canon_ds(DesignSpace.from_csv(p3, header=list(DesignSpace.TABLE_NAMES)))
+            except Exception as e:  # noqa: BLE001
+                obs["csv_header"] = "E:" + common.exc_class(e)
+            p4 = os.path.join(d, "ds_p.csv")
+            try:
+                ds.to_csv(p4, fields=["name", "upper_bound", "type", "value", "lower_bound"])
+                obs["csv_perm"] = canon_ds(DesignSpace.from_csv(p4))
+            except Exception as e:  # noqa: BLE001
+                obs["csv_perm"] = "E:" + common.exc_class(e)
         except Exception as e:  # noqa: BLE001
             obs["csv"] = "E"
             obs["csv_exc"] = common.exc_class(e) + ": " + repr(e)[:120]
@@ -970,6 +1028,10 @@ def ds_oracle(case, obs) -> list[tuple[str, str]]:
             bad.append(("ds-csv-differs", "design space reloaded from text differs: " + m))
         if obs["csv_file"] != obs["csv"]:
             bad.append(("ds-from-file-differs", "DesignSpace.from_file and from_csv disagree"))
+        if obs["csv_header"] != obs["csv"]:
+            bad.append(("ds-csv-header-option", f"to_csv(header_char='# ') + from_csv(header=TABLE_NAMES) gives {obs['csv_header'][:80]} instead of the plain text round trip"))
+        if obs["csv_perm"] != obs["csv"]:
+            bad.append(("ds-csv-fields-order", f"to_csv with permuted fields + from_csv gives {obs['csv_perm'][:80]} instead of the plain text round trip"))
     return bad
 
 
@@ -1064,6 +1126,8 @@ def gen_pb_case(rng) -> dict[str, Any]:
             [[rat(Fraction(rng.randint(-16, 16), 8)) for _ in range(4)], rng.pick([["f"], ["f", "@f"], ["extra"], []])]
             for _ in range(rng.randint(1, 4))
         ],
+        "final_overwrite": rng.chance(0.25),  # a last to_hdf(append=False) on the same path
+        "sibling": rng.chance(0.3),  # another problem saved afterwards in another node of the same file
         "tols": None if rng.chance(0.4) else [rat(rng.pick([Fraction(1, 8), Fraction(1, 1024), Fraction(0)])),
                                               rat(rng.pick([Fraction(1, 4), Fraction(1, 4096), Fraction(0)]))],
     }
@@ -1188,6 +1252,13 @@ def pb_observe(case) -> dict[str, Any]:
                         outs[nm] = np.array([1.0 + k, 2.0] if nm.startswith("@") else [0.5 * k]) if nm != "f" else float(k)
                     pb.database.store(x, outs)
                 pb.to_hdf(p, append=True, hdf_node_path=case["node"])
+            if case.get("final_overwrite"):
+                pb.to_hdf(Path(p), hdf_node_path=case["node"])
+            if case.get("sibling"):
+                other = build_problem({**case, "dim": case["dim"] % 3 + 1, "two_vars": not case["two_vars"], "cstr": [], "obs": [],
+                                       "minimize": True, "tols": None})
+                execute_algo(other, algo_name="SLSQP", max_iter=2)
+                other.to_hdf(p, append=True, hdf_node_path="sibling_" + (case["node"].replace("/", "_") or "root"))
             obs["orig"] = pb_desc(pb)
             pb2 = OptimizationProblem.from_hdf(p, hdf_node_path=case["node"])
             obs["back"] = pb_desc(pb2)
@@ -1239,6 +1310,10 @@ def check_pb_cases(res: Result, cases) -> None:
         res.count(f"pb:ncstr={len(case['cstr'])}")
         if case.get("stage2"):
             res.count("pb:two-stage-append")
+        if case.get("sibling"):
+            res.count("pb:second-problem-in-same-file")
+        if case.get("final_overwrite"):
+            res.count("pb:final-overwrite")
         if "orig" in obs and obs["orig"]["solution"] is not None:
             res.count("pb:with-solution")
         if case["run"] and len(case["cstr"]) >= 1:
@@ -1259,7 +1334,7 @@ def shrink_pb(case, key):
             return False
 
     cur = case
-    for k, v in (("obs", []), ("two_vars", False), ("dim", 1), ("append", False), ("minimize", True), ("diff", "user"), ("tols", None), ("stage2", None)):
+    for k, v in (("obs", []), ("two_vars", False), ("dim", 1), ("append", False), ("minimize", True), ("diff", "user"), ("tols", None), ("stage2", None), ("final_overwrite", False), ("sibling", False)):
         if cur.get(k) != v and fails({**cur, k: v}):
             cur = {**cur, k: v}
     if len(cur["cstr"]) > 1:
